@@ -207,6 +207,8 @@ func c16body(secret string, rounds int) func() {
 			if reply == "handshake" {
 				if err != nil || !est {
 					vrt.Fail("C16|handshake-not-established", "%s: err=%v state=%d", in, err, state)
+				} else if !annEst {
+					vrt.Fail("C16|established-not-announced", "%s: the handler set with SetHandler never saw the established state (events %v)", in, events)
 				}
 				if probeSent && (len(routed) != 1 || routed[0] != "message:probe:probe") {
 					vrt.Fail("C16|stanza-not-routed-after-handshake", "%s: routed %v", in, routed)
